@@ -9,6 +9,11 @@ import Mathlib.Tactic.IntervalCases
 import Mathlib.Tactic.Ring
 import Mathlib.Tactic.Convert
 import Voi.Props.L0.FieldU64_feMulGeneric
+import Voi.Props.L0.FieldU64_fePow2kGeneric1
+import Voi.Props.L0.FieldU64_Sub
+import Voi.Props.L0.FieldU64_Neg
+import Voi.Props.L0.FieldU64_Mul121666
+import Voi.Props.L0.FieldU64_Square2
 import Voi.Props.FL.Bounds
 namespace Voi.Props.FL.Link
 open Voi.IR Voi.Props.L0 Voi.Props.FL.Bounds
@@ -25,7 +30,9 @@ theorem feMul_meets_contract (a0 a1 a2 a3 a4 b0 b1 b2 b3 b4 : Nat)
     (ha : ∀ x ∈ [a0, a1, a2, a3, a4, b0, b1, b2, b3, b4], x ≤ 2^54 - 1) :
     let e := run Voi.Gen.FieldU64.feMulGeneric_prog [a0, a1, a2, a3, a4, b0, b1, b2, b3, b4]
     (∀ j, j < 5 → get e (Voi.Gen.FieldU64.feMulGeneric_outs.getD j 0) ≤ 2^52 - 1) ∧
-    (v51 (get e 295) (get e 294) (get e 270) (get e 282) (get e 287) - v51 a0 a1 a2 a3 a4 * v51 b0 b1 b2 b3 b4) % (2^255 - 19) = 0 := by
+    (v51 (get e (Voi.Gen.FieldU64.feMulGeneric_outs.getD 0 0)) (get e (Voi.Gen.FieldU64.feMulGeneric_outs.getD 1 0))
+        (get e (Voi.Gen.FieldU64.feMulGeneric_outs.getD 2 0)) (get e (Voi.Gen.FieldU64.feMulGeneric_outs.getD 3 0))
+        (get e (Voi.Gen.FieldU64.feMulGeneric_outs.getD 4 0)) - v51 a0 a1 a2 a3 a4 * v51 b0 b1 b2 b3 b4) % (2^255 - 19) = 0 := by
   intro e
   have hpre : PreSat [a0, a1, a2, a3, a4, b0, b1, b2, b3, b4] Spec.FieldU64_feMulGeneric.pre := by
     refine ⟨rfl, ?_⟩
@@ -50,6 +57,207 @@ theorem feMul_meets_contract (a0 a1 a2 a3 a4 b0 b1 b2 b3 b4 : Nat)
   · have h := hc _ rfl
     simp only [Voi.Gen.FieldU64.feMulGeneric_outs, lincomb, weights, radix51, List.map, Poly.val_mul, fe64_0, fe64_5] at h
     simp only [Poly.val, Mono.val, Atom.val, List.foldr, IR.get, List.getD_cons_zero, List.getD_cons_succ] at h
+    simp only [Voi.Gen.FieldU64.feMulGeneric_outs, List.getD_cons_zero, List.getD_cons_succ]
+    unfold v51
+    have e1 : P25519 = 2^255 - 19 := rfl
+    rw [e1] at h
+    convert h using 2
+    simp only [IR.get, e]
+    ring
+
+
+theorem feSquare_meets_contract (a0 a1 a2 a3 a4 : Nat)
+    (ha : ∀ x ∈ [a0, a1, a2, a3, a4], x ≤ 2^54 - 1) :
+    let e := run Voi.Gen.FieldU64.fePow2kGeneric1_prog [a0, a1, a2, a3, a4]
+    (∀ j, j < 5 → get e (Voi.Gen.FieldU64.fePow2kGeneric1_outs.getD j 0) ≤ 2^52 - 1) ∧
+    (v51 (get e (Voi.Gen.FieldU64.fePow2kGeneric1_outs.getD 0 0)) (get e (Voi.Gen.FieldU64.fePow2kGeneric1_outs.getD 1 0))
+        (get e (Voi.Gen.FieldU64.fePow2kGeneric1_outs.getD 2 0)) (get e (Voi.Gen.FieldU64.fePow2kGeneric1_outs.getD 3 0))
+        (get e (Voi.Gen.FieldU64.fePow2kGeneric1_outs.getD 4 0)) - v51 a0 a1 a2 a3 a4 * v51 a0 a1 a2 a3 a4) % (2^255 - 19) = 0 := by
+  intro e
+  have hpre : PreSat [a0, a1, a2, a3, a4] Spec.FieldU64_fePow2kGeneric1.pre := by
+    refine ⟨rfl, ?_⟩
+    intro i hi
+    have hi' : i < 5 := hi
+    have hx : IR.get [a0, a1, a2, a3, a4] i ≤ 2^54 - 1 := by
+      apply ha
+      unfold IR.get
+      interval_cases i <;> simp
+    have hav : aget Spec.FieldU64_fePow2kGeneric1.pre i = bits 54 := by
+      interval_cases i <;> rfl
+    rw [hav]
+    exact ⟨Nat.zero_le _, hx, Nat.mod_one _⟩
+  obtain ⟨⟨_, hb⟩, _, hc⟩ := check_sound _ _ _ FieldU64_fePow2kGeneric1 _ hpre
+  constructor
+  · intro j hj
+    have := (hb j (by simpa [Voi.Gen.FieldU64.fePow2kGeneric1_outs] using hj)).2
+    have hp : (aget Spec.FieldU64_fePow2kGeneric1.post j).hi = 2^52 - 1 := by
+      interval_cases j <;> rfl
+    rw [hp] at this
+    exact this
+  · have h := hc _ rfl
+    simp only [Voi.Gen.FieldU64.fePow2kGeneric1_outs, lincomb, weights, radix51, List.map, Poly.val_mul, Poly.val_scale, fe64_0] at h
+    simp only [Poly.val, Mono.val, Atom.val, List.foldr, IR.get, List.getD_cons_zero, List.getD_cons_succ] at h
+    simp only [Voi.Gen.FieldU64.fePow2kGeneric1_outs, List.getD_cons_zero, List.getD_cons_succ]
+    unfold v51
+    have e1 : P25519 = 2^255 - 19 := rfl
+    rw [e1] at h
+    convert h using 2
+    simp only [IR.get, e]
+    ring
+
+theorem feMul121666_meets_contract (a0 a1 a2 a3 a4 : Nat)
+    (ha : ∀ x ∈ [a0, a1, a2, a3, a4], x ≤ 2^54 - 1) :
+    let e := run Voi.Gen.FieldU64.Mul121666_prog [a0, a1, a2, a3, a4]
+    (∀ j, j < 5 → get e (Voi.Gen.FieldU64.Mul121666_outs.getD j 0) ≤ 2^52 - 1) ∧
+    (v51 (get e (Voi.Gen.FieldU64.Mul121666_outs.getD 0 0)) (get e (Voi.Gen.FieldU64.Mul121666_outs.getD 1 0))
+        (get e (Voi.Gen.FieldU64.Mul121666_outs.getD 2 0)) (get e (Voi.Gen.FieldU64.Mul121666_outs.getD 3 0))
+        (get e (Voi.Gen.FieldU64.Mul121666_outs.getD 4 0)) - 121666 * v51 a0 a1 a2 a3 a4) % (2^255 - 19) = 0 := by
+  intro e
+  have hpre : PreSat [a0, a1, a2, a3, a4] Spec.FieldU64_Mul121666.pre := by
+    refine ⟨rfl, ?_⟩
+    intro i hi
+    have hi' : i < 5 := hi
+    have hx : IR.get [a0, a1, a2, a3, a4] i ≤ 2^54 - 1 := by
+      apply ha
+      unfold IR.get
+      interval_cases i <;> simp
+    have hav : aget Spec.FieldU64_Mul121666.pre i = bits 54 := by
+      interval_cases i <;> rfl
+    rw [hav]
+    exact ⟨Nat.zero_le _, hx, Nat.mod_one _⟩
+  obtain ⟨⟨_, hb⟩, _, hc⟩ := check_sound _ _ _ FieldU64_Mul121666 _ hpre
+  constructor
+  · intro j hj
+    have := (hb j (by simpa [Voi.Gen.FieldU64.Mul121666_outs] using hj)).2
+    have hp : (aget Spec.FieldU64_Mul121666.post j).hi = 2^52 - 1 := by
+      interval_cases j <;> rfl
+    rw [hp] at this
+    exact this
+  · have h := hc _ rfl
+    simp only [Voi.Gen.FieldU64.Mul121666_outs, lincomb, weights, radix51, List.map, Poly.val_mul, Poly.val_scale, fe64_0] at h
+    simp only [Poly.val, Mono.val, Atom.val, List.foldr, IR.get, List.getD_cons_zero, List.getD_cons_succ] at h
+    simp only [Voi.Gen.FieldU64.Mul121666_outs, List.getD_cons_zero, List.getD_cons_succ]
+    unfold v51
+    have e1 : P25519 = 2^255 - 19 := rfl
+    rw [e1] at h
+    convert h using 2
+    simp only [IR.get, e]
+    ring
+
+theorem feSquare2_meets_contract (a0 a1 a2 a3 a4 : Nat)
+    (ha : ∀ x ∈ [a0, a1, a2, a3, a4], x ≤ 2^54 - 1) :
+    let e := run Voi.Gen.FieldU64.Square2_prog [a0, a1, a2, a3, a4]
+    (∀ j, j < 5 → get e (Voi.Gen.FieldU64.Square2_outs.getD j 0) ≤ 2^53 - 1) ∧
+    (v51 (get e (Voi.Gen.FieldU64.Square2_outs.getD 0 0)) (get e (Voi.Gen.FieldU64.Square2_outs.getD 1 0))
+        (get e (Voi.Gen.FieldU64.Square2_outs.getD 2 0)) (get e (Voi.Gen.FieldU64.Square2_outs.getD 3 0))
+        (get e (Voi.Gen.FieldU64.Square2_outs.getD 4 0)) - 2 * (v51 a0 a1 a2 a3 a4 * v51 a0 a1 a2 a3 a4)) % (2^255 - 19) = 0 := by
+  intro e
+  have hpre : PreSat [a0, a1, a2, a3, a4] Spec.FieldU64_Square2.pre := by
+    refine ⟨rfl, ?_⟩
+    intro i hi
+    have hi' : i < 5 := hi
+    have hx : IR.get [a0, a1, a2, a3, a4] i ≤ 2^54 - 1 := by
+      apply ha
+      unfold IR.get
+      interval_cases i <;> simp
+    have hav : aget Spec.FieldU64_Square2.pre i = bits 54 := by
+      interval_cases i <;> rfl
+    rw [hav]
+    exact ⟨Nat.zero_le _, hx, Nat.mod_one _⟩
+  obtain ⟨⟨_, hb⟩, _, hc⟩ := check_sound _ _ _ FieldU64_Square2 _ hpre
+  constructor
+  · intro j hj
+    have := (hb j (by simpa [Voi.Gen.FieldU64.Square2_outs] using hj)).2
+    have hp : (aget Spec.FieldU64_Square2.post j).hi = 2^53 - 1 := by
+      interval_cases j <;> rfl
+    rw [hp] at this
+    exact this
+  · have h := hc _ rfl
+    simp only [Voi.Gen.FieldU64.Square2_outs, lincomb, weights, radix51, List.map, Poly.val_mul, Poly.val_scale, fe64_0] at h
+    simp only [Poly.val, Mono.val, Atom.val, List.foldr, IR.get, List.getD_cons_zero, List.getD_cons_succ] at h
+    simp only [Voi.Gen.FieldU64.Square2_outs, List.getD_cons_zero, List.getD_cons_succ]
+    unfold v51
+    have e1 : P25519 = 2^255 - 19 := rfl
+    rw [e1] at h
+    convert h using 2
+    simp only [IR.get, e]
+    ring
+
+theorem feNeg_meets_contract (a0 a1 a2 a3 a4 : Nat)
+    (h0 : a0 ≤ 36028797018963664) (h1 : a1 ≤ 36028797018963952) (h2 : a2 ≤ 36028797018963952)
+    (h3 : a3 ≤ 36028797018963952) (h4 : a4 ≤ 36028797018963952) :
+    let e := run Voi.Gen.FieldU64.Neg_prog [a0, a1, a2, a3, a4]
+    (∀ j, j < 5 → get e (Voi.Gen.FieldU64.Neg_outs.getD j 0) ≤ 2^52 - 1) ∧
+    (v51 (get e (Voi.Gen.FieldU64.Neg_outs.getD 0 0)) (get e (Voi.Gen.FieldU64.Neg_outs.getD 1 0))
+        (get e (Voi.Gen.FieldU64.Neg_outs.getD 2 0)) (get e (Voi.Gen.FieldU64.Neg_outs.getD 3 0))
+        (get e (Voi.Gen.FieldU64.Neg_outs.getD 4 0)) - (-1) * v51 a0 a1 a2 a3 a4) % (2^255 - 19) = 0 := by
+  intro e
+  have hpre : PreSat [a0, a1, a2, a3, a4] Spec.FieldU64_Neg.pre := by
+    refine ⟨rfl, ?_⟩
+    intro i hi
+    have hi' : i < 5 := hi
+    interval_cases i
+    · exact ⟨Nat.zero_le _, h0, Nat.mod_one _⟩
+    · exact ⟨Nat.zero_le _, h1, Nat.mod_one _⟩
+    · exact ⟨Nat.zero_le _, h2, Nat.mod_one _⟩
+    · exact ⟨Nat.zero_le _, h3, Nat.mod_one _⟩
+    · exact ⟨Nat.zero_le _, h4, Nat.mod_one _⟩
+  obtain ⟨⟨_, hb⟩, _, hc⟩ := check_sound _ _ _ FieldU64_Neg _ hpre
+  constructor
+  · intro j hj
+    have := (hb j (by simpa [Voi.Gen.FieldU64.Neg_outs] using hj)).2
+    have hp : (aget Spec.FieldU64_Neg.post j).hi = 2^52 - 1 := by
+      interval_cases j <;> rfl
+    rw [hp] at this
+    exact this
+  · have h := hc _ rfl
+    simp only [Voi.Gen.FieldU64.Neg_outs, lincomb, weights, radix51, List.map, Poly.val_scale, fe64_0] at h
+    simp only [Poly.val, Mono.val, Atom.val, List.foldr, IR.get, List.getD_cons_zero, List.getD_cons_succ] at h
+    simp only [Voi.Gen.FieldU64.Neg_outs, List.getD_cons_zero, List.getD_cons_succ]
+    unfold v51
+    have e1 : P25519 = 2^255 - 19 := rfl
+    rw [e1] at h
+    convert h using 2
+    simp only [IR.get, e]
+    ring
+
+theorem feSub_meets_contract (a0 a1 a2 a3 a4 b0 b1 b2 b3 b4 : Nat)
+    (ha : ∀ x ∈ [a0, a1, a2, a3, a4], x ≤ 2^63 - 1)
+    (h0 : b0 ≤ 36028797018963664) (h1 : b1 ≤ 36028797018963952) (h2 : b2 ≤ 36028797018963952)
+    (h3 : b3 ≤ 36028797018963952) (h4 : b4 ≤ 36028797018963952) :
+    let e := run Voi.Gen.FieldU64.Sub_prog [a0, a1, a2, a3, a4, b0, b1, b2, b3, b4]
+    (∀ j, j < 5 → get e (Voi.Gen.FieldU64.Sub_outs.getD j 0) ≤ 2^52 - 1) ∧
+    (v51 (get e (Voi.Gen.FieldU64.Sub_outs.getD 0 0)) (get e (Voi.Gen.FieldU64.Sub_outs.getD 1 0))
+        (get e (Voi.Gen.FieldU64.Sub_outs.getD 2 0)) (get e (Voi.Gen.FieldU64.Sub_outs.getD 3 0))
+        (get e (Voi.Gen.FieldU64.Sub_outs.getD 4 0)) - (v51 a0 a1 a2 a3 a4 + (-1) * v51 b0 b1 b2 b3 b4)) % (2^255 - 19) = 0 := by
+  intro e
+  have hpre : PreSat [a0, a1, a2, a3, a4, b0, b1, b2, b3, b4] Spec.FieldU64_Sub.pre := by
+    refine ⟨rfl, ?_⟩
+    intro i hi
+    have hi' : i < 10 := hi
+    interval_cases i
+    · exact ⟨Nat.zero_le _, ha a0 (by simp), Nat.mod_one _⟩
+    · exact ⟨Nat.zero_le _, ha a1 (by simp), Nat.mod_one _⟩
+    · exact ⟨Nat.zero_le _, ha a2 (by simp), Nat.mod_one _⟩
+    · exact ⟨Nat.zero_le _, ha a3 (by simp), Nat.mod_one _⟩
+    · exact ⟨Nat.zero_le _, ha a4 (by simp), Nat.mod_one _⟩
+    · exact ⟨Nat.zero_le _, h0, Nat.mod_one _⟩
+    · exact ⟨Nat.zero_le _, h1, Nat.mod_one _⟩
+    · exact ⟨Nat.zero_le _, h2, Nat.mod_one _⟩
+    · exact ⟨Nat.zero_le _, h3, Nat.mod_one _⟩
+    · exact ⟨Nat.zero_le _, h4, Nat.mod_one _⟩
+  obtain ⟨⟨_, hb⟩, _, hc⟩ := check_sound _ _ _ FieldU64_Sub _ hpre
+  constructor
+  · intro j hj
+    have := (hb j (by simpa [Voi.Gen.FieldU64.Sub_outs] using hj)).2
+    have hp : (aget Spec.FieldU64_Sub.post j).hi = 2^52 - 1 := by
+      interval_cases j <;> rfl
+    rw [hp] at this
+    exact this
+  · have h := hc _ rfl
+    simp only [Voi.Gen.FieldU64.Sub_outs, lincomb, weights, radix51, List.map, Poly.val_add, Poly.val_scale, fe64_0, fe64_5] at h
+    simp only [Poly.val, Mono.val, Atom.val, List.foldr, IR.get, List.getD_cons_zero, List.getD_cons_succ] at h
+    simp only [Voi.Gen.FieldU64.Sub_outs, List.getD_cons_zero, List.getD_cons_succ]
     unfold v51
     have e1 : P25519 = 2^255 - 19 := rfl
     rw [e1] at h
@@ -58,7 +266,11 @@ theorem feMul_meets_contract (a0 a1 a2 a3 a4 b0 b1 b2 b3 b4 : Nat)
     ring
 
 /-- the bounds used above are the entries of the contract table -/
-theorem contract_bounds : C64.mulPre = List.replicate 5 (2^54 - 1) ∧ C64.mulPost = List.replicate 5 (2^52 - 1) := by
+theorem contract_bounds : C64.mulPre = List.replicate 5 (2^54 - 1) ∧ C64.mulPost = List.replicate 5 (2^52 - 1) ∧
+    C64.sqPre = List.replicate 5 (2^54 - 1) ∧ C64.sqPost = List.replicate 5 (2^52 - 1) ∧ C64.sq2Post = List.replicate 5 (2^53 - 1) ∧
+    C64.subPreA = List.replicate 5 (2^63 - 1) ∧ C64.negPost = List.replicate 5 (2^52 - 1) ∧
+    C64.subPreB = [36028797018963664, 36028797018963952, 36028797018963952, 36028797018963952, 36028797018963952] ∧
+    C64.negPre = C64.subPreB := by
   decide +kernel
 
 end Voi.Props.FL.Link
